@@ -56,6 +56,11 @@ def shape_ok(sp, obj, sels, data, path, err_paths):
     for k in want:
         nodes = grouped[k]
         fd = sp.field_def(obj, nodes[0]["name"])
+        # one UNAMBIGUOUS value per response key: every contributing selection denotes the same field call
+        if len({n["name"] for n in nodes}) > 1:
+            return "ambiguous response key %s at %s: fields %s" % (k, path, sorted({n["name"] for n in nodes}))
+        if not fd.get("meta") and len({json.dumps(n["args"].get(obj), sort_keys=True) for n in nodes}) > 1:
+            return "ambiguous response key %s at %s: different argument values" % (k, path)
         merged = []
         for n in nodes:
             merged += n["sels"] or []
@@ -294,6 +299,9 @@ FIXED = [
     ("abstract-spreads", "{ n { id ... on Ob { a b { id } } ... on Other { c } ...NF } u { __typename ... on Node { id } } } fragment NF on Node { id ... on Ob { a } }", {}),
     ("typename-only", "{ __typename }", {}),
     ("meta-on-non-root", "{ b { __schema { types { name } } } }", {}),
+    ("same-key-object-then-abstract", "{ n { ... on Ob { k: a } ... on Node { k: id } } }", {}),
+    ("same-key-abstract-then-object", "{ n { ... on Node { k: id } ... on Ob { k: a } } }", {}),
+    ("same-key-same-field-both-orders", "{ n { ... on Node { k: id } ... on Ob { k: id } } u { ... on Ob { k: id } ... on Node { k: id } } }", {}),
 ]
 
 
